@@ -180,6 +180,17 @@ def replay_estimates(m, task):
                 got = em.get_estimates().values * 64.0
                 if not np.array_equal(got, np.array(st["ret"]["get"], dtype=float)):
                     return "get_estimates = %r, specification %r after %s" % (got.tolist(), list(st["ret"]["get"]), task["ops"])
+            elif op[0] == "correct":
+                b_s, t_s = st["ret"]["corr"]
+                Tm = np.eye(3) + np.array([list(r) for r in t_s], dtype=float) / 64.0
+                bv = np.array(list(b_s), dtype=float) / 64.0
+                dtv = np.array([0.25, 0.25, 0.5, 1.0])
+                inc = np.array([[1.0, 2.0, 3.0], [-2.0, 0.5, 4.0], [0.25, -1.0, 2.0], [8.0, 1.0, -0.5]])
+                df = m["pd"].DataFrame(inc, index=[0.25, 0.5, 1.0, 2.0], columns=["x", "y", "z"])
+                got = em.correct_increments(dtv, df).values
+                exp = np.linalg.solve(Tm, (inc - bv * dtv[:, None]).T).T
+                if not np.allclose(got, exp, rtol=1e-9, atol=1e-9):
+                    return "correct_increments does not use the current estimates (max |d| = %.3g) after %s" % (float(np.max(np.abs(got - exp))), task["ops"])
             elif op[0] == "H":
                 r = np.array(op[1], dtype=float)
                 H = em.output_matrix(r)
